@@ -140,7 +140,7 @@ def snapshot(d):
 
 def events_of(sc, res, outstate):
     rep = core.Report(res["stdout"])
-    ev = [{"ev": "run", "sc": sc}]
+    ev = [{"ev": "run", "sc": dict(sc, free=sc.get("free", False))}]
     for s in rep.steps:
         ev.append({"ev": "step", "n": s["name"], "d": s["depth"], "st": s["status"], "c": s["count"]})
     if rep.has_errors_header:
